@@ -1,4 +1,5 @@
 import CifModel.Lemmas.ParserDefectSeg
+import CifModel.Lemmas.ParserDefectCombo
 import CifModel.Props.C12
 import CifModel.Props.C12Lex
 /-
@@ -12,8 +13,9 @@ import CifModel.Props.C12Lex
   EXACTLY the two reports, in document order, each with its class's code, each at its own position on the scanner's walk (the
   second shifted by the tokens of the first segment), and the content is that of BOTH repairs applied (the second repair applied
   to the result of the first).  `C12_defects_compose` is the same for any number of reports per segment (iterate for n defects).
-  `C12_two_defects_missing_value_dup_itemname`, `…_partial_packet_unexpected_value`, `…_dup_header_name_null_key`: three pairs
-  written out in terms of documents.
+  `C12_two_defects_missing_value_dup_itemname`: one pair written out in terms of documents (any other pair of `C12_seg_<class>`
+  theorems composes the same way).  `C12_dup_header_name_partial_packet`: the two defects that can meet in ONE loop — a dropped
+  header name and a short last packet — for all instances.
 -/
 namespace CifModel
 open CifModel.Model CifModel.Model.Lexer CifModel.Model.Parser CifModel.Spec.Grammar CifModel.Spec.Lexical
@@ -291,5 +293,86 @@ theorem C12_two_defects_missing_value_dup_itemname (o : Opts) {path : Path} {put
     (by simpa [itemsToks, List.append_assoc] using hF)
   refine ⟨s', r1, r2, ?_, c1, c2, p1, by simpa [itemsToks] using p2, hfe⟩
   simpa [denoteItems_append, denoteItems] using e
+
+/-! ### two defects in ONE loop: a dropped header name and a short last packet -/
+
+theorem termFollow_loopKw (tx : Str) (rest : List TokSpec) : termFollow ((.loopKw, tx) :: rest) := ⟨_, _, _, rfl, rfl⟩
+
+/-- **C12_dup_header_name_partial_packet** (segment form) — any container, any well-formed items before and behind: a loop whose
+    header `ns₁ ++ [n'] ++ ns₂` repeats in `n'` (any spelling) a name of the container / of the items in front / of `ns₁`, with
+    complete packets `ps` and a short last packet `pv`.  EXACTLY two reports, CIF_DUP_ITEMNAME at the repeated name and
+    CIF_PARTIAL_PACKET behind the last value; the loop has the names `ns₁ ++ ns₂`, and every packet — the last one padded with
+    unknown values to the full width — lacks the value of the dropped column.  ALL instances (group gJ: evaluated instances). -/
+theorem C12_seg_dup_header_name_partial_packet (o : Opts) {path : Path} {put : Container → Cif} {code : Str} (hv : View o path put code)
+    (isBlock : Bool) (pre post : List Item) (ns1 ns2 : List Str) (n' : Str) (ps : List (List Val)) (pv : List Val)
+    (seen seen2 : List Str) (fs : List Container) (ls : List Loop)
+    (hpre : wfItems o pre seen = true) (hseen : ∀ k ∈ normNames o ls, k ∈ seen)
+    (hwf : ∀ n ∈ ns1 ++ ns2, wfName n = true)
+    (hfresh : ∀ n ∈ ns1 ++ ns2, o.norm n ∉ normNames o (denoteItems o.dia o.normKey pre ls))
+    (hnd : ((ns1 ++ ns2).map o.norm).Nodup) (hne : ns1 ++ ns2 ≠ []) (hname : wfName n' = true)
+    (hdup : o.norm n' ∈ normNames o (denoteItems o.dia o.normKey pre ls) ∨ ∃ m ∈ ns1, o.norm m = o.norm n')
+    (hlen : ∀ p ∈ ps, p.length = ns1.length + 1 + ns2.length) (hwv : ∀ p ∈ ps, wfVals o p = true)
+    (hpv : pv ≠ []) (hpl : pv.length < ns1.length + 1 + ns2.length) (hwpv : wfVals o pv = true)
+    (hpost : wfItems o post seen2 = true)
+    (hseen2 : ∀ k ∈ normNames o (denoteItems o.dia o.normKey pre ls ++ [mkLoop (ns1 ++ ns2)
+        (ps.map (fun p => (denoteVals o.dia o.normKey p).eraseIdx ns1.length) ++
+          [(denoteVals o.dia o.normKey pv ++ List.replicate (ns1.length + 1 + ns2.length - pv.length) V.unk).eraseIdx ns1.length])]),
+      k ∈ seen2) :
+    Seg o path put code isBlock
+      ((itemsToks pre ++ ((.loopKw, []) :: (ns1.map (fun n => (TokType.name, n)) ++ ((.name, n') ::
+        (ns2.map (fun n => (TokType.name, n)) ++ (packetsToks ps ++ valsToks pv)))))) ++ itemsToks post)
+      fs ls fs
+      (denoteItems o.dia o.normKey post (denoteItems o.dia o.normKey pre ls ++ [mkLoop (ns1 ++ ns2)
+        (ps.map (fun p => (denoteVals o.dia o.normKey p).eraseIdx ns1.length) ++
+          [(denoteVals o.dia o.normKey pv ++ List.replicate (ns1.length + 1 + ns2.length - pv.length) V.unk).eraseIdx ns1.length])]))
+      [(CIF_DUP_ITEMNAME, (itemsToks pre).length + (1 + ns1.length)),
+       (CIF_PARTIAL_PACKET, (itemsToks pre).length + (1 + ns1.length + 1 + ns2.length + (packetsToks ps).length + (valsToks pv).length))]
+      ((itemsToks pre).length + (1 + ns1.length + 1 + ns2.length + (packetsToks ps).length + (valsToks pv).length)
+        + (itemsToks post).length)
+      (post.length + (1 + pre.length))
+      (szItems pre + (ns1.length + ns2.length + szPackets ps + szVals pv + 4) + szItems post) termFollow := by
+  have A := Seg.items o hv isBlock pre seen fs ls hpre hseen
+  have B := Seg.dup_header_partial o hv isBlock ns1 ns2 n' ps pv fs (denoteItems o.dia o.normKey pre ls) hwf hfresh hnd hne hname hdup hlen hwv
+    hpv hpl hwpv
+  have C := Seg.items o hv isBlock post seen2 fs _ hpost hseen2
+  have h := Seg.comp (Seg.comp A B (fun rest _ => termFollow_loopKw _ _)) C (fun rest hr => items_rest_head post rest hr)
+  simpa only [List.nil_append, shiftSpec, List.map_nil, List.map_cons, List.append_nil] using h
+
+/-- **C12_dup_header_name_partial_packet** — the same in the form of the `_at` theorems -/
+theorem C12_dup_header_name_partial_packet (o : Opts) {path : Path} {put : Container → Cif} {code : Str} (hv : View o path put code)
+    (isBlock : Bool) (pre post : List Item) (ns1 ns2 : List Str) (n' : Str) (ps : List (List Val)) (pv : List Val)
+    (seen seen2 : List Str) (fs : List Container) (ls : List Loop) (rest : List TokSpec) (s : PS) (fuel : Nat) (w : W)
+    (hcif : w.cif = put (.mk code fs ls))
+    (hpre : wfItems o pre seen = true) (hseen : ∀ k ∈ normNames o ls, k ∈ seen)
+    (hwf : ∀ n ∈ ns1 ++ ns2, wfName n = true)
+    (hfresh : ∀ n ∈ ns1 ++ ns2, o.norm n ∉ normNames o (denoteItems o.dia o.normKey pre ls))
+    (hnd : ((ns1 ++ ns2).map o.norm).Nodup) (hne : ns1 ++ ns2 ≠ []) (hname : wfName n' = true)
+    (hdup : o.norm n' ∈ normNames o (denoteItems o.dia o.normKey pre ls) ∨ ∃ m ∈ ns1, o.norm m = o.norm n')
+    (hlen : ∀ p ∈ ps, p.length = ns1.length + 1 + ns2.length) (hwv : ∀ p ∈ ps, wfVals o p = true)
+    (hpv : pv ≠ []) (hpl : pv.length < ns1.length + 1 + ns2.length) (hwpv : wfVals o pv = true)
+    (hpost : wfItems o post seen2 = true)
+    (hseen2 : ∀ k ∈ normNames o (denoteItems o.dia o.normKey pre ls ++ [mkLoop (ns1 ++ ns2)
+        (ps.map (fun p => (denoteVals o.dia o.normKey p).eraseIdx ns1.length) ++
+          [(denoteVals o.dia o.normKey pv ++ List.replicate (ns1.length + 1 + ns2.length - pv.length) V.unk).eraseIdx ns1.length])]),
+      k ∈ seen2)
+    (hfuel : szItems pre + (ns1.length + ns2.length + szPackets ps + szVals pv + 4) + szItems post ≤ fuel)
+    (hrest : termFollow rest)
+    (hF : Feeds o s (((itemsToks pre ++ ((.loopKw, []) :: (ns1.map (fun n => (TokType.name, n)) ++ ((.name, n') ::
+        (ns2.map (fun n => (TokType.name, n)) ++ (packetsToks ps ++ valsToks pv)))))) ++ itemsToks post) ++ rest)) :
+    ∃ s' r1 r2, elemsLoop o (fuel + (post.length + (1 + pre.length))) s (some path) isBlock acceptAll w
+        = elemsLoop o fuel s' (some path) isBlock acceptAll
+            { log := r2 :: r1 :: w.log,
+              cif := put (.mk code fs (denoteItems o.dia o.normKey post (denoteItems o.dia o.normKey pre ls ++ [mkLoop (ns1 ++ ns2)
+                (ps.map (fun p => (denoteVals o.dia o.normKey p).eraseIdx ns1.length) ++
+                  [(denoteVals o.dia o.normKey pv ++ List.replicate (ns1.length + 1 + ns2.length - pv.length) V.unk).eraseIdx
+                    ns1.length])]))) }
+      ∧ r1.code = CIF_DUP_ITEMNAME ∧ r2.code = CIF_PARTIAL_PACKET
+      ∧ RepAt o s ((itemsToks pre).length + (1 + ns1.length)) r1
+      ∧ RepAt o s ((itemsToks pre).length + (1 + ns1.length + 1 + ns2.length + (packetsToks ps).length + (valsToks pv).length)) r2
+      ∧ Feeds o s' rest := by
+  obtain ⟨s', rs, e, hr, hfe, _⟩ := C12_seg_dup_header_name_partial_packet o hv isBlock pre post ns1 ns2 n' ps pv seen seen2 fs ls hpre hseen
+    hwf hfresh hnd hne hname hdup hlen hwv hpv hpl hwpv hpost hseen2 rest s fuel w hcif hfuel hrest hF
+  obtain ⟨r1, r2, rfl, c1, p1, c2, p2⟩ := RepsAt.two hr
+  exact ⟨s', r1, r2, by simpa using e, c1, c2, p1, p2, hfe⟩
 
 end CifModel
